@@ -62,6 +62,15 @@ CHECKS.update({
    note="types are generated at check time (gen.py) and compiled into the harness; Configure is reached through an export wrapper supplying the channel Start normally creates"),
 })
 
+CHECKS.update({
+ "C17": dict(level="fault_enumeration", ref="4 C17", technique="exhaustive enumeration of registration inputs (index/name strings, event masks), of stall vectors and of socket configurations against the real accept loop / configure step",
+   text="(1) every index string of length 0-3 over {0,5,9,a,-,space,/,a two-byte non-ASCII digit} x names {empty, a, a-b, 200 chars} registered by a raw protocol plugin (real mux + ttrpc) in batches followed by a well-formed plugin: synchronized and served events iff name non-empty and index is two ASCII digits; the batch never blocks the later plugin. (2) masks answered to the real configure step: all 8192 valid masks, every single undefined bit 13..31 on boundary masks, all pairs of undefined bits, all ones (thorough: all 2^32 values): accepted iff no undefined bit, empty mask = everything. (3) every vector of 0-2 misbehaving plugins (never registers, registers after the timeout, never answers Configure, invalid mask, drops after register/configure, bad index, empty name) ahead of a good plugin with 200 ms timeouts: the bad ones get nothing, the good one becomes active and receives events. (4) disabled external connections serve no socket; for umask in {000,002,022,027,077} x 1-3 missing path components every directory NRI creates has no group/other bits.",
+   note="(1),(3) run the full stack free-running; horizons are long (seconds against 200 ms timeouts); umask is changed process-wide inside the worker while the socket engine runs alone"),
+ "C19": dict(level="model_checking", ref="4 C19", technique="stateless schedule exploration (cooperative scheduler, preemption-bounded DFS) of unsolicited updates against runtime requests on the real Adaptation + exhaustive content enumeration on the full stack",
+   text="(1) schedules: threads calling the real plugin.UpdateContainers relay (2-3 plugins) interleaved with create/update/event requests whose handlers are scheduling points; on every interleaving within 3 (8) preemptions the runtime's update callback never overlaps another callback or a handler of a request in progress, is called exactly once per request with the plugin's updates, and each plugin gets its own failed list. (2) content on the full stack (real stub, mux, ttrpc): every update list of length 0-2 over 5 update shapes x ignore-failure flags (+ rotating length-3 lists) x callback results {nil, every subset as failed list, error}: the callback sees exactly the list once, the plugin gets exactly the failed list or the error. (3) a stub never started returns ErrNoService without blocking.",
+   note="schedule part: in-process fake plugins at the seam, handler entry and the callback are scheduling points; content part is free-running underneath"),
+})
+
 NOT_YET = {}
 
 def main():
